@@ -2,6 +2,8 @@
 
 package websocket
 
+import "context"
+
 // Pseudo-functions of the contract language. They have executable bodies so that
 // contract clauses can also be compiled into replay tests; the verifier treats them
 // as intrinsics.
@@ -44,3 +46,14 @@ func gvcSameSlice[T any](a, b []T) bool {
 func gvcSuffixOf[T any](b, b0 []T) bool {
 	return len(b) <= len(b0) && (len(b) == 0 || &b[0] == &b0[len(b0)-len(b)])
 }
+
+func gvcModChan(ch any) {}
+
+// Ghost channel state (see gvc/sym/chan.go): closed, "the buffered element is
+// mine" (held mutex), and the last value this goroutine sent (armed context).
+func gvcClosed(ch any) bool { panic("ghost") }
+func gvcHeld(ch any) bool   { panic("ghost") }
+func gvcArmed(ch chan context.Context) context.Context { panic("ghost") }
+
+// gvcFresh(x): x was allocated during the call.
+func gvcFresh(x any) bool { panic("ghost") }
